@@ -46,7 +46,8 @@ class C13(Prop):
         nedit = 0
         for r in range(nr):
             edit = []
-            kind = rng.choice(["none", "none", "rescale", "metric", "lmi", "func_cons", "redundant"]) if r > 0 else "none"
+            kind = rng.choice(["none", "none", "rescale", "metric", "lmi", "func_cons", "redundant", "part_cons",
+                               "more_samples"]) if r > 0 else "none"
             if kind == "rescale" and init is not None:
                 # replace the initial condition by a rescaled copy of itself
                 o = copy.deepcopy(init_lhs)
@@ -77,6 +78,24 @@ class C13(Prop):
                 edit.append({"op": "cons", "out": "ed_fc%d" % nedit, "lhs": e, "rel": "<=", "rhs": 5e3,
                              "target": b.info["main_f"]})
                 held += [e, "ed_fc%d" % nedit]
+            elif kind == "part_cons" and b.points and b.parts:
+                nedit += 1
+                e = "ed_p%d" % nedit
+                edit.append({"op": "sq", "out": e, "a": rng.choice(b.points)})
+                edit.append({"op": "cons", "out": "ed_pc%d" % nedit, "lhs": e, "rel": "<=", "rhs": 6e3,
+                             "target": b.parts[0]})
+                held += [e, "ed_pc%d" % nedit]
+            elif kind == "more_samples" and b.points and b.info.get("main_f"):
+                nedit += 1
+                q = "ed_q%d" % nedit
+                edit.append({"op": "newpoint", "out": q})
+                edit.append({"op": "oracle", "out": ["ed_g%d" % nedit, "ed_v%d" % nedit], "f": b.info["main_f"],
+                             "x": rng.choice(list(b.points) + [q])})
+                if b.info.get("cls") == "LinearOperator":
+                    edit.append({"op": "gradient", "out": "ed_gt%d" % nedit, "f": b.info["main_f"] + "T", "x": q})
+                    edit.append({"op": "sq", "out": "ed_qe%d" % nedit, "a": q})
+                    edit.append({"op": "cons", "out": "ed_qc%d" % nedit, "lhs": "ed_qe%d" % nedit, "rel": "<=",
+                                 "rhs": 1.0, "target": b.P})
             elif kind == "redundant" and b.points:
                 nedit += 1
                 e = "ed_r%d" % nedit
